@@ -507,6 +507,9 @@ pub struct TcpClient {
     pub options: Vec<u8>,
     /// the tuple is reused: a new SYN is sent between two messages
     pub resyn: bool,
+    /// spurious retransmissions (same sequence number, same bytes): 0 none, 1 the last segment
+    /// of every message once more, 2 every segment but the first of a message once more
+    pub rexmit: u8,
     // state
     cookie: Option<u32>,
     syn_tries: u32,
@@ -584,6 +587,7 @@ impl TcpClient {
             window: rng.u16(),
             options: if rng.chance(1, 3) { vec![2, 4, 5, 0xb4, 1, 3, 3, 7] } else { Vec::new() },
             resyn: rng.chance(1, 6),
+            rexmit: *rng.pick(&[0u8, 0, 0, 0, 0, 1, 1, 2]),
             cookie: None,
             syn_tries: 0,
             sent_data: false,
@@ -626,10 +630,23 @@ impl TcpClient {
         let mut seq = self.isn.wrapping_add(1);
         let mut t = t0;
         for (mi, m) in self.msgs.iter().enumerate() {
-            for s in m.segments() {
+            let segs = m.segments();
+            let mut sent: Vec<(u32, &[u8])> = Vec::new();
+            for s in segs.iter() {
                 out.push(Action::SendAt(t, self.seg(seq, ack, self.data_flags, s, false)));
+                sent.push((seq, s));
                 seq = seq.wrapping_add(s.len() as u32);
                 t += self.gap_us;
+            }
+            if self.rexmit > 0 && sent.len() > 1 {
+                // the retransmission timer fires although everything arrived
+                let from = if self.rexmit == 1 { sent.len() - 1 } else { 1 };
+                for (sq, s) in sent[from..].iter() {
+                    if !s.is_empty() {
+                        out.push(Action::SendAt(t, self.seg(*sq, ack, self.data_flags, s, false)));
+                        t += self.gap_us;
+                    }
+                }
             }
             if mi + 1 < self.msgs.len() {
                 t += self.gap_us * 5 + 1000;
@@ -1134,6 +1151,7 @@ impl TcpClient {
             window: rng.u16(),
             options: Vec::new(),
             resyn: false,
+            rexmit: 0,
             cookie: None,
             syn_tries: 0,
             sent_data: false,
@@ -1172,6 +1190,7 @@ impl TcpClient {
             window: rng.u16(),
             options: Vec::new(),
             resyn: false,
+            rexmit: 0,
             cookie: None,
             syn_tries: 0,
             sent_data: false,
